@@ -82,6 +82,11 @@ def c01_sigs(schema, doc, op=None):
                 if ks & ks2:
                     flag("sibling_flattened_selections_share_response_key", path, ks | ks2)
         for s in sel:
+            if not isinstance(s, Field) and s.directives:
+                flag("fragment_with_skip_or_include", path, _keys_of(schema, frags, s))
+            if isinstance(s, Field) and s.directives:
+                flag("field_with_skip_or_include", path, {s.key})
+        for s in sel:
             if isinstance(s, Spread) and s.name in frags:
                 if kind == "OBJECT" and frags[s.name].on != parent:
                     flag("abstract_fragment_spread_on_object_parent", path, _keys_of(schema, frags, s))
